@@ -12,6 +12,11 @@ def parseChange (s : String) : Option ContentChange :=
     match l1.toNat?, c1.toNat?, l2.toNat?, c2.toNat?, textOfHex t with
     | some l1, some c1, some l2, some c2, some t => some ⟨some (⟨l1, c1⟩, ⟨l2, c2⟩), t⟩
     | _, _, _, _, _ => none
+  -- with the deprecated `rangeLength` member: the specification ignores it (the range decides)
+  | ["R", l1, c1, l2, c2, t, _len] =>
+    match l1.toNat?, c1.toNat?, l2.toNat?, c2.toNat?, textOfHex t with
+    | some l1, some c1, some l2, some c2, some t => some ⟨some (⟨l1, c1⟩, ⟨l2, c2⟩), t⟩
+    | _, _, _, _, _ => none
   | _ => none
 
 def splitNotifs (xs : List String) : List (List String) :=
